@@ -305,7 +305,4 @@ class SinglePass(SyncBase):
             shared = bor(*[cmp('==', c.S1[i], c.S2[j]) for i in range(c.N1)])
             sg = self.sign(c, j, 2)[0]
             tot = arith('+', tot, ite(shared, 0, neg(sg) if not is_z3(sg) else -sg))
-        if c.N1 + c.N2 == 0:
-            # empty-empty convention of the profile: value 1 over multiplicity 1 -> order ratio 1
-            return [('c', cmp('==', split(cval)[0], 1)), ('mp', cmp('==', split(mp)[0], 1))]
         return [('c', cmp('==', split(cval)[0], tot)), ('mp', cmp('==', split(mp)[0], total_mp))]
